@@ -313,6 +313,19 @@ func azAO(c *suiteCtx, q [][2]string, email string, groups []string, present boo
 	var s *sessions.SessionState
 	if present {
 		s = &sessions.SessionState{Email: email, Groups: groups}
+		// the constraints are about the session's E-MAIL ADDRESS and GROUPS: its other identity fields are spelled like
+		// something the query allows (a user name that looks like a listed address, a preferred user name inside an
+		// allowed domain, a user name equal to an allowed group) and must not count
+		if ae := azEntities(q, "allowed_emails"); len(ae) > 0 {
+			s.User = ae[azAOSeq%len(ae)]
+			s.PreferredUsername = ae[(azAOSeq/2)%len(ae)]
+		} else if ad := azEntities(q, "allowed_email_domains"); len(ad) > 0 {
+			s.User = "someone@" + strings.TrimPrefix(strings.TrimPrefix(ad[azAOSeq%len(ad)], "*"), ".")
+			s.PreferredUsername = s.User
+		} else if ag := azEntities(q, "allowed_groups"); len(ag) > 0 {
+			s.User = ag[azAOSeq%len(ag)]
+			s.PreferredUsername = s.User
+		}
 	}
 	got := authOnlyAuthorize(req, s)
 	c.emit(bs(got), "ao", encQuery(q), encAzSess(email, groups, present))
